@@ -1,6 +1,7 @@
 """C24 — Transactions see their own writes (PROV)."""
 from ..facts import op_local
 from ..mirutil import place_path, backward_slice, site_key
+from ..core import AnchorLost
 
 EXPLANATION = (
     "Decides: wherever a statement is executed against an explicit (caller-owned) write transaction, the read view handed to the executor must be "
@@ -121,3 +122,44 @@ def run(ctx):
                        "the statement reads through a view that is not taken per statement (%s): label / relationship-type names and data published "
                        "by earlier statements of the same transaction are invisible to it" % why, e.loc())
     ctx.floor("C24.2", "statement runners on caller-owned transactions", n2, 1)
+
+    # ---- clause 3: every input of a write-aware operator is executed write-aware ---------------------------------------
+    # Inside a write statement the plan is interpreted by execute_write_with_rows / execute_merge_with_rows_inner, whose scans also return the
+    # transaction's not-yet-committed creates; the read-only `execute_plan(snapshot, ..)` sees committed data only.  An operator with two
+    # inputs (cartesian product of MATCH parts, UNION) must run *both* through the write-aware recursion, otherwise the second pattern part
+    # of `MATCH (a), (b) CREATE ..` cannot bind nodes created earlier in the same transaction.
+    from .. import tables
+    ctx.rule("C24.3", "in both write-aware executors every two-input Plan arm (left / right) recurses write-aware into both inputs, and the two executors agree arm by arm on the number of write-aware recursions")
+    PLAN = "nervusdb_query::executor::plan_types::Plan"
+    padt = ctx.adt(PLAN)
+    kids = {v["discr"]: (v["name"], [f[0] for f in v["fields"] if "Box<" in f[1] and PLAN in f[1]]) for v in padt["variants"]}
+    REC = ("execute_write_with_rows", "execute_merge_with_rows", "execute_merge_with_rows_inner")
+    W = "nervusdb_query::executor::write_orchestration::"
+    counts = {}
+    for fid in (W + "execute_write_with_rows", W + "execute_merge_with_rows_inner"):
+        wb = ctx.body(fid)
+        sw = tables.enum_switch(wb, PLAN, F)
+        if not sw or len(sw[1]) < 20:
+            raise AnchorLost("no match over Plan in %s" % fid)
+        for dv, tb in sorted(sw[1].items()):
+            name, ch = kids[dv]
+            if not ch:
+                continue
+            reg = tables.dominated_region(wb, tb, sw[0])
+            rec = [c for c in wb.calls() if c.bb in reg and c.name.split("::")[-1] in REC]
+            counts.setdefault(name, {})[fid.split("::")[-1]] = len(rec)
+            if ch == ["left", "right"]:
+                ctx.instance("C24.3", "%s: %s recurses write-aware %d time(s) for inputs %s" % (fid.split("::")[-1], name, len(rec), ch))
+                ctx.oblige(len(rec) >= 2, "C24.3", "%s:%s:input-not-write-aware" % (fid.split("::")[-1], name),
+                           "Plan::%s runs only %d of its two inputs through the write-aware executor: the other one is evaluated against the committed snapshot "
+                           "and does not see what earlier statements of the transaction created" % (name, len(rec)), wb.file)
+    # arms that delegate to a helper in one executor only (reason each)
+    SIB_EXCEPT = {"Delete": "non-MERGE path hands the whole arm to execute_delete, which recurses itself", "Create": "same, execute_create",
+                  "OptionalWhereFixup": "only the MERGE path interprets it"}
+    for name, per in sorted(counts.items()):
+        if len(per) < 2 or name in SIB_EXCEPT:
+            continue
+        a, b_ = list(per.values())
+        ctx.instance("C24.3", "Plan::%s write-aware recursions: %s" % (name, per))
+        ctx.oblige(a == b_, "C24.3", "siblings:%s" % name, "the two write-aware executors disagree on Plan::%s (%s)" % (name, per), "nervusdb-query/src/executor/write_orchestration.rs")
+    ctx.floor("C24.3", "Plan arms compared", len(counts), 20)
